@@ -103,6 +103,19 @@ func TestVerifC13(t *testing.T) {
 				}
 			}
 			nClients := cs.R.Range(4, ctx.N(12, 24))
+			// every client also owns one EXISTING key of ia/keep and overwrites it with increasing
+			// numbers: a merge of one client must never bring back an older value of another's key
+			{
+				own := map[string]any{}
+				for c := 0; c < nClients; c++ {
+					own[fmt.Sprintf("own%d", c)] = float64(-1)
+				}
+				e.VSetMetadata("ia", "keep", own)
+			}
+			lastOwn := make([]float64, nClients)
+			for c := range lastOwn {
+				lastOwn[c] = -1
+			}
 			perClient := cs.R.Range(150, ctx.N(500, 1500))
 			cs.Op("workload=%s clients=%d ops/client=%d GOMAXPROCS=%d", wl, nClients, perClient, procs)
 
@@ -228,15 +241,22 @@ func TestVerifC13(t *testing.T) {
 						case p < 28:
 							// a client uses what it reads: the records are serialised (as the HTTP
 							// layer does) while other clients go on updating the same ids
+							// (the metadata only: the vector of a returned record is a view into the
+							// index's arena, which a concurrent Close / drop / compression unmaps - see
+							// DESIGN.md section 13; the harness must not touch it after such an event)
 							if d, err := e.VGet(ix, id); err == nil {
-								json.Marshal(d)
+								json.Marshal(d.Metadata)
 							}
 							if ds, err := e.VGetMany(ix, ids); err == nil {
-								json.Marshal(ds)
+								for _, d := range ds {
+									json.Marshal(d.Metadata)
+								}
 							}
 							if r.Chance(0.3) {
 								if conns, err := e.VGetConnections(ix, id, "r"); err == nil {
-									json.Marshal(conns)
+									for _, d := range conns {
+										json.Marshal(d.Metadata)
+									}
 								}
 							}
 						case p < 40:
@@ -253,8 +273,14 @@ func TestVerifC13(t *testing.T) {
 							}
 						case p < 48:
 							k := fmt.Sprintf("c%d_%d", c, i)
-							if e.VSetMetadata(ix, "keep", map[string]any{k: float64(i)}) == nil && ix == "ia" {
-								mergeKeys[c] = append(mergeKeys[c], k)
+							if i%2 == 0 {
+								if e.VSetMetadata(ix, "keep", map[string]any{k: float64(i)}) == nil && ix == "ia" {
+									mergeKeys[c] = append(mergeKeys[c], k)
+								}
+							} else if !wasClosed && !closeStarted.Load() {
+								if e.VSetMetadata("ia", "keep", map[string]any{fmt.Sprintf("own%d", c): float64(i)}) == nil {
+									lastOwn[c] = float64(i)
+								}
 							}
 						case p < 56:
 							if e.VReinforce(ix, []string{"keep", id}) == nil && !wasClosed {
@@ -412,6 +438,36 @@ func TestVerifC13(t *testing.T) {
 				e.VGet("ia", "keep")
 				e.VSearch("ia", []float32{1, 2, 3}, 2, "", "", 0, 1.0, nil)
 				e.VAdd("ia", "late", []float32{1, 1, 1}, nil)
+				// subscribers that outlive the engine: unsubscribing (and subscribing) after Close
+				// must not panic nor block (a streaming client still connected at shutdown)
+				busDone := make(chan string, 1)
+				go func() {
+					defer func() {
+						if p := recover(); p != nil {
+							busDone <- fmt.Sprintf("EventBus call after Close panicked: %v", p)
+						}
+					}()
+					e.EventBus.Unsubscribe(drain)
+					e.EventBus.Unsubscribe(stuck)
+					if late := e.EventBus.Subscribe(1); late != nil {
+						e.EventBus.Unsubscribe(late)
+					}
+					busDone <- ""
+				}()
+				select {
+				case msg := <-busDone:
+					if msg != "" {
+						cs.Fail("%s", msg)
+					}
+				case <-time.After(30 * time.Second):
+					// a stall is a violation only with a witness: a goroutine parked on the bus mutex
+					dump := vkit.DumpGoroutines()
+					if strings.Contains(dump, "EventBus") && (strings.Contains(dump, "sync.(*Mutex).Lock") || strings.Contains(dump, "sync.(*RWMutex)")) {
+						cs.Attach("goroutines", dump[:min(len(dump), 6000)])
+						cs.Fail("Unsubscribe / Subscribe after Close did not return: a goroutine is parked on the event bus mutex")
+					}
+					ctx.Inconclusive("EventBus calls after Close did not return within 30 s and no goroutine is parked on the bus")
+				}
 				e2, err := engine.Open(vexec.Options(dir))
 				if err != nil {
 					cs.Fail("reopen after Close under load: %v", err)
@@ -445,6 +501,11 @@ func TestVerifC13(t *testing.T) {
 					}
 				}
 				d, _ := e.VGet("ia", "keep")
+				for c := range lastOwn {
+					if got, _ := d.Metadata[fmt.Sprintf("own%d", c)].(float64); got != lastOwn[c] {
+						cs.Fail("ia/keep: key own%d is %v, the last acknowledged VSetMetadata of its only writer set %v (a concurrent merge of another client brought an older value back)", c, d.Metadata[fmt.Sprintf("own%d", c)], lastOwn[c])
+					}
+				}
 				for c := range mergeKeys {
 					for _, k := range mergeKeys[c] {
 						if _, ok := d.Metadata[k]; !ok {
